@@ -234,6 +234,13 @@ func run(sc scenario) (body func(), check func(r *vrt.Result) []finding) {
 					add(sc.Dir+":I3:stream_credit_mismatch"+cls, "%s: sender has sent %d flow-controlled bytes on stream %d but was returned %d bytes of stream credit", ctx, L.sentFlow[s], s, cred[s])
 				}
 			}
+			// the receiver sends no DATA in these histories: it is owed no credit at all
+			for _, e := range rcv.Recv {
+				if e.T == "wu" {
+					add(sc.Dir+":I3:credit_sent_to_the_receiver", "%s: the receiver, which sent no DATA, was sent WINDOW_UPDATE(stream %d, +%d)", ctx, e.Stream, e.Incr)
+					break
+				}
+			}
 			for s, c := range cred {
 				if s != 0 && s != 1 && s != 3 && !(s == 5 && sc.ConnUsed > 0) && c != 0 {
 					add(sc.Dir+":I3:credit_for_unknown_stream", "%s: credit returned for stream %d which carried no DATA", ctx, s)
@@ -315,7 +322,11 @@ func run(sc scenario) (body func(), check func(r *vrt.Result) []finding) {
 						break
 					}
 				}
-				if e.Who == "snd" {
+				if e.Who == "snd" && e.T != "data" {
+					// SETTINGS / WINDOW_UPDATE from the DATA sender concern the opposite direction only (in which
+					// nothing flows here): they must change nothing of what the ledger tracks
+					snd.Write(spec(e))
+				} else if e.Who == "snd" {
 					applySend(e)
 					snd.Write(spec(e))
 				} else {
@@ -504,6 +515,27 @@ func scenarios(tier string) []scenario {
 		{Who: "snd", T: "data", Stream: 1, N: 16385},
 		{Who: "snd", T: "data", Stream: 3, N: 40000},
 		{Who: "rcv", T: "wu", Stream: 0, N: 100000},
+	}
+	// cross-talk: the DATA sender announces its own (opposite-direction) settings and credits in between
+	crossAlpha := []ev{
+		{Who: "snd", T: "data", Stream: 1, N: 5},
+		{Who: "snd", T: "data", Stream: 3, N: 5},
+		{Who: "rcv", T: "iws", N: 0},
+		{Who: "rcv", T: "iws", N: 4},
+		{Who: "rcv", T: "wu", Stream: 1, N: 5},
+		{Who: "rcv", T: "wu", Stream: 0, N: 5},
+		{Who: "snd", T: "iws", N: 0},
+		{Who: "snd", T: "iws", N: 70000},
+		{Who: "snd", T: "wu", Stream: 1, N: 5},
+		{Who: "snd", T: "wu", Stream: 0, N: 7},
+		{Who: "snd", T: "mfs", N: 20000},
+	}
+	for _, dir := range []string{"c2s", "s2c"} {
+		d := 3
+		if tier != "quick" {
+			d = 4
+		}
+		gen(dir, 4, crossAlpha, d)
 	}
 	if tier == "quick" {
 		genUsed("c2s", 65531, connAlpha, 3)
